@@ -283,6 +283,31 @@ def generate(repo):
         return False
     g.fact('exposeShapeIsFramesByImage', 'prysm/detector.py:Detector.expose', expose_shape)
 
+    def expose_out_shape():
+        fn = get_def(dt, 'Detector.expose')
+        src = [ast.unparse(s_) for s_ in fn.body]
+        resh = [k for k, t in enumerate(src) if t.startswith('output = output.reshape(')]
+        if len(resh) != 1:
+            raise Untranslatable('reshape of expose')
+        k = resh[0]
+        full = {'output = output.reshape((frames, *aerial_img.shape))': 'frames :: shape',
+                'output = output.reshape((frames,) + aerial_img.shape)': 'frames :: shape',
+                'output = output.reshape(frames, *aerial_img.shape)': 'frames :: shape',
+                'output = output.reshape((*aerial_img.shape, frames))': 'shape ++ [frames]',
+                'output = output.reshape(aerial_img.shape + (frames,))': 'shape ++ [frames]',
+                'output = output.reshape(aerial_img.shape)': 'shape'}.get(src[k])
+        if full is None:
+            raise Untranslatable(f'reshape written as {src[k][:60]}')
+        nxt = src[k + 1] if k + 1 < len(src) else ''
+        sq = {'if frames == 1:\n    output = output[0, :, :]': 'List.tail', 'if frames == 1:\n    output = output[0]': 'List.tail',
+              'if frames == 1:\n    output = output[0, ...]': 'List.tail', 'if frames == 1:\n    output = output[..., 0]': 'List.dropLast'}.get(nxt)
+        if nxt.startswith('if frames') and sq is None:
+            raise Untranslatable(f'squeeze written as {nxt[:60]}')
+        body = f'if frames = 1 then {sq} ({full}) else {full}' if sq else full
+        return f'def exposeOutShape (frames : Nat) (shape : List Nat) : List Nat := {body}'
+    g.item('Detector.expose.outshape', 'prysm/detector.py:Detector.expose', lambda: get_def(dt, 'Detector.expose'), expose_out_shape,
+           f'def exposeOutShape (frames : Nat) (shape : List Nat) : List Nat := {M}.exposeOutShape frames shape')
+
     def flatten_order():
         """every flatten / reshape of expose works in C (row-major) order, so that pixel k of the flat vector is pixel k of
         the reshaped result whatever the memory layout of the input"""
@@ -342,47 +367,77 @@ def generate(repo):
 
     def bindown():
         fn = get_def(dt, 'bindown')
-        outs = find_assigns(fn, 'output_shape')
         from pyexpr2lean import elementwise
-        term = elementwise(outs[0], {'array.shape': 's', 'factor': 'f'})
-        il = interleave(outs[1]) if len(outs) > 1 else None
-        if il == ('output_shape', 'factor'):
-            inter = True
-        elif il == ('factor', 'output_shape'):
-            inter = False
-        else:
-            raise Untranslatable(f'interleaved shape written as {ast.unparse(outs[1]) if len(outs) > 1 else None}')
+        # data flow, not names: intermediate_view = array.reshape(X); X = interleave(A, B); the non-factor one of A, B is the
+        # per-axis output length, assigned (last, before X's interleaving) from a comprehension over zip(array.shape, factor)
+        iv = find_assign(fn, 'intermediate_view')
+        if not (isinstance(iv, ast.Call) and ast.unparse(iv.func) == 'array.reshape' and len(iv.args) == 1 and isinstance(iv.args[0], ast.Name)
+                and not iv.keywords):
+            raise Untranslatable('intermediate view')
+        xname = iv.args[0].id
+        top = [s_ for s_ in fn.body if isinstance(s_, ast.Assign) and len(s_.targets) == 1 and isinstance(s_.targets[0], ast.Name)]
+        xs = [s_ for s_ in top if s_.targets[0].id == xname]
+        il = interleave(xs[-1].value) if xs else None
+        if il is None or 'factor' not in il or il[0] == il[1]:
+            raise Untranslatable(f'interleaved shape written as {ast.unparse(xs[-1].value) if xs else None}')
+        inter = il[1] == 'factor'
+        oname = il[0] if inter else il[1]
+        os_ = [s_ for s_ in top if s_.targets[0].id == oname and s_.lineno < xs[-1].lineno]
+        if len(os_) != 1:
+            raise Untranslatable(f'{len(os_)} assignments to the output lengths {oname}')
+        term = elementwise(os_[0].value, {'array.shape': 's', 'factor': 'f'})
         red = find_assign(fn, 'reduction_axes')
         assert ast.unparse(red.func) == 'tuple' and ast.unparse(red.args[0].func) == 'range'
         tr = Tr({'array.ndim': 'ndim'})
         lo, hi, st = (tr.expr(a) for a in red.args[0].args)
-        if ast.unparse(find_assign(fn, 'intermediate_view')) != 'array.reshape(output_shape)':
-            raise Untranslatable('intermediate view')
         view = True
         modes = {}
         for key, body in branch_table(fn, 'mode').items():
-            if len(body) == 1 and isinstance(body[0], ast.Assign):
+            if len(body) == 1 and isinstance(body[0], (ast.Assign, ast.Return)) and body[0].value is not None:
                 modes[key] = ast.unparse(body[0].value)
         known = {'intermediate_view.mean(axis=reduction_axes)', 'intermediate_view.sum(axis=reduction_axes)'}
         if not set(modes.values()) <= known or not all(k in modes for k in ('avg', 'average', 'mean', 'sum')):
             raise Untranslatable(f'mode table {modes}')
+        # what the function hands back is what a branch computed, untouched: every return is a known reduction or the variable the
+        # branches assign, and that variable is assigned nowhere else
+        from pyexpr2lean import find_returns
+        rets = [ast.unparse(r) for r in find_returns(fn)]
+        res_names = {r for r in rets if r not in known}
+        n_assign = {nm: sum(1 for n_ in ast.walk(fn) if isinstance(n_, (ast.Assign, ast.AugAssign)) and nm in
+                            [ast.unparse(t) for t in (n_.targets if isinstance(n_, ast.Assign) else [n_.target])]) for nm in res_names}
+        n_branch = {nm: sum(1 for b_ in branch_table(fn, 'mode').values() if len(b_) == 1 and isinstance(b_[0], ast.Assign)
+                            and ast.unparse(b_[0].targets[0]) == nm) for nm in res_names}
+        distinct_branches = {nm: len({id(b_) for b_ in branch_table(fn, 'mode').values() if len(b_) == 1 and isinstance(b_[0], ast.Assign)
+                                      and ast.unparse(b_[0].targets[0]) == nm}) for nm in res_names}
+        if len(res_names) > 1 or any(not nm.isidentifier() or n_assign[nm] != distinct_branches[nm] for nm in res_names):
+            raise Untranslatable(f'bindown returns {rets}')
         ok_modes = all(modes.get(k) == 'intermediate_view.mean(axis=reduction_axes)' for k in ('avg', 'average', 'mean')) \
             and modes.get('sum') == 'intermediate_view.sum(axis=reduction_axes)'
+        outl = '(List.zipWith (fun s f => binOutLen s f) shape f)'
+        vs = f'{M}.interleave {outl} f' if inter else f'{M}.interleave f {outl}'
+        mt = ', '.join(f'("{k}", {"true" if v.startswith("intermediate_view.mean") else "false"})' for k, v in sorted(modes.items()))
         return (f'def binOutLen (s f : Int) : Int := {term}\n\n'
                 f'def binReduceAxes (ndim : Int) : Int × Int × Int := ({lo}, {hi}, {st})\n\n'
                 f'def binViewInterleavesOutAndFactor : Bool := {"true" if inter and view else "false"}\n\n'
-                f'def binModesAreMeanAndSum : Bool := {"true" if ok_modes else "false"}')
+                f'def binModesAreMeanAndSum : Bool := {"true" if ok_modes else "false"}\n\n'
+                f'def binViewShape (shape f : List Int) : List Int := {vs}\n\n'
+                f'def binModes : List (String × Bool) := [{mt}]')
     g.item('bindown', 'prysm/detector.py:bindown', lambda: get_def(dt, 'bindown'), bindown,
            f'def binOutLen (s f : Int) : Int := {M}.binOutLen s f\n'
            'def binReduceAxes (ndim : Int) : Int × Int × Int := (1, 2 * ndim, 2)\n'
            'def binViewInterleavesOutAndFactor : Bool := true\n'
-           'def binModesAreMeanAndSum : Bool := true')
+           'def binModesAreMeanAndSum : Bool := true\n'
+           f'def binViewShape (shape f : List Int) : List Int := {M}.binViewShape shape f\n'
+           f'def binModes : List (String × Bool) := {M}.binModes')
 
     def tile():
         fn = get_def(dt, 'tile')
         from pyexpr2lean import elementwise
         term = elementwise(find_assign(fn, 'output_shape'), {'array.shape': 's', 'factor': 'f'})
-        ok = interleave(find_assign(fn, 'shape2')) == ('array.shape', 'factor') \
+        il2 = interleave(find_assign(fn, 'shape2'))
+        if il2 not in (('array.shape', 'factor'), ('factor', 'array.shape')):
+            raise Untranslatable('shape2 of tile')
+        ok = il2 == ('array.shape', 'factor') \
             and interleave(find_assign(fn, 'shape1')) == ('slc', 'intermediate') \
             and ast.unparse(find_assign(fn, 'slc')) in ('(slice(s) for s in array.shape)', '[slice(s) for s in array.shape]') \
             and ast.unparse(find_assign(fn, 'intermediate')) in ('[None] * len(factor)', '(None,) * len(factor)') \
@@ -412,15 +467,21 @@ def generate(repo):
             raise Untranslatable('avg / average / mean scale differently')
         applied = any(ast.unparse(n) in ('view = view * sf', 'view = sf * view') for n in ast.walk(fn) if isinstance(n, ast.Assign)) \
             or any(ast.unparse(n) in ('view *= sf',) for n in ast.walk(fn) if isinstance(n, ast.AugAssign))
+        tvs = f'{M}.interleave shape f' if il2 == ('array.shape', 'factor') else f'{M}.interleave f shape'
+        tmt = ', '.join(f'("{k}", {"true" if sf_term(table[k]) == t_sum and sf_term(table[k]) not in t_avg else "false"})' for k in sorted(table))
         return (f'def tileOutLen (s f : Int) : Int := {term}\n\n'
                 'def tileScaleSum {K : Type} [Num K] (prodf : K) : K := ' + t_sum + '\n\n'
-                'def tileScaleAvg {K : Type} [Num K] : K := ' + t_avg.pop() + '\n\n'
-                f'def tileViewBroadcastsOverFactor : Bool := {"true" if ok and applied else "false"}')
+                'def tileScaleAvg {K : Type} [Num K] : K := ' + sorted(t_avg)[0] + '\n\n'
+                f'def tileViewBroadcastsOverFactor : Bool := {"true" if ok and applied else "false"}\n\n'
+                f'def tileViewShape (shape f : List Int) : List Int := {tvs}\n\n'
+                f'def tileModes : List (String × Bool) := [{tmt}]')
     g.item('tile', 'prysm/detector.py:tile', lambda: get_def(dt, 'tile'), tile,
            f'def tileOutLen (s f : Int) : Int := {M}.tileOutLen s f\n'
            'def tileScaleSum {K : Type} [Num K] (prodf : K) : K := Num.ofInt 1 / prodf\n'
            'def tileScaleAvg {K : Type} [Num K] : K := Num.ofInt 1\n'
-           'def tileViewBroadcastsOverFactor : Bool := true')
+           'def tileViewBroadcastsOverFactor : Bool := true\n'
+           f'def tileViewShape (shape f : List Int) : List Int := {M}.tileViewShape shape f\n'
+           f'def tileModes : List (String × Bool) := {M}.tileModes')
 
     # ------------------------------------------------------------------ bayer: slices and tables
     def slices():
@@ -544,6 +605,30 @@ def generate(repo):
     g.item('malvar.kernels', 'prysm/bayer.py:kernel_*', lambda: get_const(by, 'kernel_G_at_R_or_B'), kernels,
            '\n'.join(f'def {ln} : List (List Rat) := {M}.{ln}' for ln in KNAME.values()))
 
+    def malvar_boundary():
+        """the boundary rule of the four `ndimage.convolve` calls of demosaic_malvar (SciPy's default is 'reflect', cval unused)"""
+        fn = get_def(by, 'demosaic_malvar')
+        calls = [c for c in ast.walk(fn) if isinstance(c, ast.Call) and ast.unparse(c.func) in ('ndimage.convolve', 'ndimage.correlate')]
+        if len(calls) != 4:
+            raise Untranslatable(f'{len(calls)} filter calls in demosaic_malvar')
+        modes = set()
+        for c in calls:
+            kw = {k.arg: k.value for k in c.keywords}
+            if set(kw) - {'mode', 'cval', 'output'} or len(c.args) > 2:
+                raise Untranslatable(f'filter call {ast.unparse(c)[:60]}')
+            m_ = kw.get('mode')
+            if m_ is None:
+                modes.add('reflect')
+            elif isinstance(m_, ast.Constant) and m_.value in ('reflect', 'grid-mirror', 'constant', 'grid-constant', 'nearest', 'mirror', 'wrap', 'grid-wrap'):
+                modes.add({'grid-mirror': 'reflect', 'grid-constant': 'constant', 'grid-wrap': 'wrap'}.get(m_.value, m_.value))
+            else:
+                raise Untranslatable('boundary mode is not a literal')
+        if len(modes) != 1:
+            raise Untranslatable(f'filter calls use different boundary rules {sorted(modes)}')
+        return f'def malvarBoundary : BMode := .{modes.pop()}'
+    g.item('demosaic_malvar.boundary', 'prysm/bayer.py:demosaic_malvar', lambda: get_def(by, 'demosaic_malvar'), malvar_boundary,
+           'def malvarBoundary : BMode := .reflect')
+
     def malvar():
         fn = get_def(by, 'demosaic_malvar')
         # kernel arrays and their divisor
@@ -560,9 +645,12 @@ def generate(repo):
         kof = {}
         for n in fn.body:
             if isinstance(n, ast.Assign) and isinstance(n.value, ast.Call) and ast.unparse(n.value.func) == 'ndimage.convolve':
+                if len(n.value.args) != 2:
+                    raise Untranslatable('convolve with positional options')
                 a0, a1 = n.value.args
-                if ast.unparse(a0) != 'img' or n.value.keywords:
-                    raise Untranslatable('convolve of something else / with keywords')
+                # the boundary rule (mode / cval) is the business of the item demosaic_malvar.boundary
+                if ast.unparse(a0) != 'img' or any(kw.arg not in ('mode', 'cval') for kw in n.value.keywords):
+                    raise Untranslatable('convolve of something else / with other keywords')
                 name = n.targets[0].id
                 # which filtered image this is follows from the kernel it is made with, not from the name of the local
                 role = {'kernelGAtRB': 'gest', 'kernelRAtGInRB': 'c1', 'kernelRAtGInBR': 'c2', 'kernelRAtBInBB': 'c3'}[kvar[a1.id]]
